@@ -33,8 +33,12 @@ class Killed(BaseException):
 
 
 class IOSim:
-    def __init__(self, root):
+    def __init__(self, root, extra_root=None):
         self.root = os.path.realpath(root)
+        # a second watched directory (the temp buffers of the sharded
+        # writer's "on disk" strategy); its paths are reported as "TMP/..."
+        self.extra_root = os.path.realpath(extra_root) if extra_root \
+            else None
         self.points = []          # (name, relpath)
         self.deviations = {}      # index -> deviation tuple
         self.dead = False
@@ -57,6 +61,11 @@ class IOSim:
         p = os.path.normpath(p)
         if p == self.root or p.startswith(self.root + os.sep):
             return os.path.relpath(p, self.root)
+        if self.extra_root and p.startswith(self.extra_root + os.sep):
+            # temp names are random (mkdtemp / uuid4): keep the shape only
+            rel = os.path.relpath(p, self.extra_root).split(os.sep)
+            return "TMP/" + "/".join(
+                c if c == "sharded_ondisk_bytearray" else "*" for c in rel)
         return None
 
     def _point(self, name, rel, mutating, perform, short_ok=False,
